@@ -70,7 +70,8 @@ Section WithEnv.
                 else
                   '(st1, secs1, os2) <- save_sections (e_enc h) h (el_xlat el1) (el_stream el1) [] (el_secs el1) os1 ;;
                   let os3 := save_segments (e_enc h) h (el_segs el1) os2 in
-                  Ok (with_stream (with_secs el1 secs1) st1, os3, true)
+                  if os_abort os3 then Fault Abort     (* uncaught std::length_error / std::bad_alloc *)
+                  else Ok (with_stream (with_secs el1 secs1) st1, os3, true)
             end
       end.
 End WithEnv.
